@@ -57,7 +57,7 @@ pub fn is_alloc_feature_op(op: &Op) -> bool {
         Fold => op.args[2] % 4 == 3,
         Zip => op.args[3] % 10 == 9,
         ItCollect => op.args[1] % 4 == 2,
-        WideOp => matches!(op.args[0] % 9, 5 | 6 | 7),
+        WideOp => matches!(op.args[0] % crate::g_wide::N_WIDE, 5 | 6 | 7),
         _ => false,
     }
 }
